@@ -20,6 +20,9 @@ Proof. destruct v; reflexivity. Qed.
 Lemma html_fmt : forall c cs f inner st cls, st <> SCloErr -> html (HFmt c cs f inner) st cls = html inner f cls.
 Proof. intros. destruct st; try reflexivity. congruence. Qed.
 
+Lemma html_fmtclo : forall c cs r inner st cls, st <> SCloErr -> html (HFmtClo c cs r inner) st cls = html r SNone cls.
+Proof. intros. destruct st; try reflexivity. congruence. Qed.
+
 Lemma html_lnk : forall l inner st cls, st <> SCloErr ->
   html (HLnk l inner) st cls =
   bind (html inner st cls) (fun o cls1 => Some (OOpen s_a :: OAttr s_href l :: o ++ [OClose], cls1)).
@@ -146,6 +149,8 @@ Proof.
     rewrite html_fmt by exact Hs. apply IH.
   - intros l inner st _ IH cls. destruct (sty_dec st) as [->|Hs]; [apply html_clo|].
     rewrite html_lnk by exact Hs. rewrite IH. reflexivity.
+  - intros c cs r inner st _ IH cls. destruct (sty_dec st) as [->|Hs]; [apply html_clo|].
+    rewrite html_fmtclo by exact Hs. apply IH.
   - intros l k e st Hin _ IH cls. destruct (sty_dec st) as [->|Hs]; [apply html_clo|].
     rewrite html_map by exact Hs. destruct (style_attr inline st cls) as [a cls0].
     rewrite (map_rows_err _ cls0 k (to_td e)); [reflexivity| |exact IH].
@@ -194,6 +199,8 @@ Proof.
   - intros cs f inner Hl _ IH cls. unfold to_td_with. rewrite Hl. cbn [negb andb]. rewrite IH. reflexivity.
   - intros cell cs f inner Hc _ IH cls. unfold to_td_with. rewrite Hc.
     destruct (style_attr inline f cls) as [a cls1]. rewrite IH. reflexivity.
+  - intros cs r inner Hl _ IH cls. unfold to_td_with. rewrite Hl. cbn [negb andb]. rewrite IH. reflexivity.
+  - intros cell cs r inner Hc _ IH cls. unfold to_td_with. rewrite Hc. rewrite IH. reflexivity.
   - intros d Hd _ IH cls. unfold to_td_with. destruct d; try discriminate; rewrite IH; reflexivity.
 Qed.
 
@@ -572,17 +579,19 @@ Fixpoint hval_ind' (P : hval -> Prop)
   (HFm : forall c cs st v, P v -> P (HFmt c cs st v))
   (HLk : forall l v, P v -> P (HLnk l v))
   (HFi : forall name mime b64 size, P (HFile name mime b64 size))
+  (HFc : forall c cs r v, P r -> P v -> P (HFmtClo c cs r v))
   (v : hval) : P v :=
   match v with
   | HS s => HS_ s
   | HFloat s => HF_ s
   | HL l => HL_ l ((fix go (l : list hval) : Forall P l :=
-                      match l with [] => Forall_nil _ | x :: r => Forall_cons _ (hval_ind' P HS_ HF_ HL_ HM_ HFm HLk HFi x) (go r) end) l)
+                      match l with [] => Forall_nil _ | x :: r => Forall_cons _ (hval_ind' P HS_ HF_ HL_ HM_ HFm HLk HFi HFc x) (go r) end) l)
   | HM l => HM_ l ((fix go (l : list (str * hval)) : Forall (fun kv => P (snd kv)) l :=
-                      match l with [] => Forall_nil _ | x :: r => Forall_cons _ (hval_ind' P HS_ HF_ HL_ HM_ HFm HLk HFi (snd x)) (go r) end) l)
-  | HFmt c cs st v => HFm c cs st v (hval_ind' P HS_ HF_ HL_ HM_ HFm HLk HFi v)
-  | HLnk l v => HLk l v (hval_ind' P HS_ HF_ HL_ HM_ HFm HLk HFi v)
+                      match l with [] => Forall_nil _ | x :: r => Forall_cons _ (hval_ind' P HS_ HF_ HL_ HM_ HFm HLk HFi HFc (snd x)) (go r) end) l)
+  | HFmt c cs st v => HFm c cs st v (hval_ind' P HS_ HF_ HL_ HM_ HFm HLk HFi HFc v)
+  | HLnk l v => HLk l v (hval_ind' P HS_ HF_ HL_ HM_ HFm HLk HFi HFc v)
   | HFile name mime b64 size => HFi name mime b64 size
+  | HFmtClo c cs r v => HFc c cs r v (hval_ind' P HS_ HF_ HL_ HM_ HFm HLk HFi HFc r) (hval_ind' P HS_ HF_ HL_ HM_ HFm HLk HFi HFc v)
   end.
 
 (* toHtml *)
@@ -603,7 +612,7 @@ Lemma seg_clo : forall P v cls, seg P (html v SCloErr cls).
 Proof. intros. rewrite html_clo. exact I. Qed.
 
 (* a cell around a value that is not a Format *)
-Lemma td_plain : forall d, (match d with HFmt _ _ _ _ => false | _ => true end) = true -> Ph d -> Qh d.
+Lemma td_plain : forall d, (match d with HFmt _ _ _ _ | HFmtClo _ _ _ _ => false | _ => true end) = true -> Ph d -> Qh d.
 Proof.
   intros d Hd HP strict cls Ll Hs.
   assert (E : to_td d cls = bind (html d SNone cls) (fun o cls1 => Some (OOpen s_td :: o ++ [OClose], cls1)))
@@ -645,6 +654,32 @@ Proof.
       * rewrite map_app. unfold attr_shapes. cbn [In].
         destruct Ssa as [->| ->]; destruct Sa as [->|[->| ->]]; cbn [app]; tauto.
       * rewrite forallb_app, Lsa, La. reflexivity.
+Qed.
+
+Lemma td_fmtclo : forall cell cs r inner, Ph r -> Ph inner -> Qh (HFmtClo cell cs r inner).
+Proof.
+  intros cell cs r inner HPr HPi strict cls Ll Hs.
+  cbn [legal_h] in Ll. apply andb_true_iff in Ll. destruct Ll as [Lr Li].
+  assert (Hs' : strict = true -> pfree r = true /\ pfree inner = true).
+  { intro H. specialize (Hs H). cbn [pfree] in Hs. apply andb_true_iff in Hs. exact Hs. }
+  unfold to_td_with.
+  set (span := if 1 <? cs then [OAttr s_colspan (itoa cs)] else []).
+  assert (Hspan : exists sa, span = attr_ops sa /\ forallb (fun kv => legal (snd kv)) sa = true /\
+                             (map fst sa = [] \/ map fst sa = [s_colspan])).
+  { unfold span. destruct (1 <? cs).
+    - exists [(s_colspan, itoa cs)]. cbn [attr_ops map fst snd forallb]. rewrite legal_itoa. auto.
+    - exists []. cbn. auto. }
+  destruct Hspan as [sa [Esa [Lsa Ssa]]]. rewrite Esa.
+  assert (K : forall x, Ph x -> legal_h x = true -> (strict = true -> pfree x = true) ->
+              seg (okels strict) (bind (html x SNone cls) (fun o cls1 => Some (OOpen s_td :: attr_ops sa ++ o ++ [OClose], cls1)))).
+  { intros x HP Lx Px. specialize (HP strict SNone cls Lx eq_refl (fun H => conj (Px H) eq_refl)).
+    destruct (html x SNone cls) as [[o cls1]|]; [|exact I]. cbn [bind seg] in *.
+    destruct HP as [f [Eo Hf]]. subst o. exists [El s_td sa f]. split; [rewrite ops_el; reflexivity|].
+    apply el_ok; [in_elems| |exact Lsa|exact Hf].
+    unfold attr_shapes. cbn [In]. destruct Ssa as [->| ->]; tauto. }
+  destruct (is_HL inner && negb cell).
+  - apply K; [exact HPr|exact Lr|]. intro H. apply (Hs' H).
+  - apply K; [exact HPi|exact Li|]. intro H. apply (Hs' H).
 Qed.
 
 Lemma assoc_some_in : forall A k (l : list (str * A)) v, assoc k l = Some v -> exists k', In (k', v) l.
@@ -689,7 +724,7 @@ Qed.
 
 Theorem html_seg : forall v, PQ v.
 Proof.
-  induction v as [s|s|items IH|l IH|c cs fs inner IH|lk inner IH|name mime b64 size] using hval_ind'.
+  induction v as [s|s|items IH|l IH|c cs fs inner IH|lk inner IH|name mime b64 size|c cs r inner IHr IHi] using hval_ind'.
   - (* string / int / bool *)
     assert (HP : Ph (HS s)).
     { intros strict st cls Ll Lst Hs. destruct (sty_dec st) as [->|Hn]; [apply seg_clo|].
@@ -796,6 +831,14 @@ Proof.
       - cbn [forallb snd]. rewrite Lh, Ln. reflexivity.
       - apply okf_txs. cbn [forallb]. rewrite Lt. reflexivity. }
     split; [exact HP|]. split; [apply td_plain; [reflexivity|exact HP]|discriminate].
+  - (* Format with a closure style that succeeds *)
+    destruct IHr as [IPr _]. destruct IHi as [IPi _].
+    assert (HP : Ph (HFmtClo c cs r inner)).
+    { intros strict st cls Ll Lst Hs. destruct (sty_dec st) as [->|Hn]; [apply seg_clo|].
+      rewrite html_fmtclo by exact Hn. cbn [legal_h] in Ll. apply andb_true_iff in Ll. destruct Ll as [Lr Li].
+      apply IPr; [exact Lr|reflexivity|]. intro H. destruct (Hs H) as [A _]. cbn [pfree] in A.
+      apply andb_true_iff in A. destruct A as [A B]. auto. }
+    split; [exact HP|]. split; [apply td_fmtclo; assumption|discriminate].
 Qed.
 
 End Model.
